@@ -42,6 +42,28 @@ CLASS_LISTS = [[], [4], [3, 4], [4, 4], [7], [1], [37], [31], [4, 7, 3], [7, 37]
 SUB_LISTS = [[], [0x40c], [0x40c, 0x40e], [0x401]]      # BSD subclasses only (the scope of the statement)
 
 
+def gen_ubd_dump(r2, world=None, sid=None):
+    """USE BEFORE DEFINITION: records whose text reads what LATER records of the same dump teach (a terminate record about a
+    thread that names itself afterwards, a string used before it is announced, an END whose START comes last)"""
+    w = world or World(r2, big_tids=False, allow_zero_tid=False)
+    g2 = gen.ProgGen(w, r2, ntids=3, noise=0.0)
+    a, b = r2.sample([1, 2, 3], 2)
+    sid = r2.randrange(60, 90) if sid is None else sid
+    name = g2.pick('SYS1')
+    if not name.startswith('BSC_'):
+        name = 'BSC_open'
+    early = [[w.term(a, b)], [w.usestr(g2.pick('USESTR'), 3, a, sid)], [w.sys(name, 2, b)], [w.term(b, b)]]
+    late = [w.tname(b, r2.choice([b'worker', b'main thread', b'a' * 40])), w.gstr(b, b'/late/string', sid), [w.sys(name, 1, b)],
+            w.tname(a, b'other', prev=r2.random() < 0.5)]
+    r2.shuffle(early)
+    r2.shuffle(late)
+    mid = [g2.ord_single(r2.randrange(1, 4)) for _ in range(r2.randrange(0, 3))]
+    stream = [e for it in early + mid + late for e in it]
+    dump = Dump(w, stream, [(1, 11, 'alpha'), (2, 12, 'beta'), (3, 13, 'gamma')])
+    dump.ubd = (a, b)
+    return w, dump
+
+
 def gen_dump(rnd, big=False, allow_zero_tid=True, residue_case=False, world=None, orphans=0.0, samples=0.0, learn=0.0, logs=False, declared_terminate=False, remap_in_sample=False, foreign_decl=False):
     w = world or World(rnd, big_tids=False, allow_zero_tid=allow_zero_tid)
     g = gen.ProgGen(w, rnd, ntids=3, noise=0.02)
@@ -297,21 +319,8 @@ def run(ctx):
     nubd = 0
     for n_ in range(12 if ctx.quick else 120):
         r2 = _random.Random(ctx.seed * 7919 + 1000 + n_)
-        w = World(r2, big_tids=False, allow_zero_tid=False)
-        g2 = gen.ProgGen(w, r2, ntids=3, noise=0.0)
-        a, b = r2.sample([1, 2, 3], 2)
-        sid = 70 + n_
-        name = g2.pick('SYS1')
-        if not name.startswith('BSC_'):
-            name = 'BSC_open'
-        early = [[w.term(a, b)], [w.usestr(g2.pick('USESTR'), 3, a, sid)], [w.sys(name, 2, b)], [w.term(b, b)]]
-        late = [w.tname(b, r2.choice([b'worker', b'main thread', b'a' * 40])), w.gstr(b, b'/late/string', sid), [w.sys(name, 1, b)],
-                w.tname(a, b'other', prev=r2.random() < 0.5)]
-        r2.shuffle(early)
-        r2.shuffle(late)
-        mid = [g2.ord_single(r2.randrange(1, 4)) for _ in range(r2.randrange(0, 3))]
-        stream = [e for it in early + mid + late for e in it]
-        dump = Dump(w, stream, [(1, 11, 'alpha'), (2, 12, 'beta'), (3, 13, 'gamma')])
+        w, dump = gen_ubd_dump(r2, sid=70 + n_)
+        a, b = dump.ubd
         ref = PyKdebugParser()
         base, btexts = request(w, ref, dump, 'traces')
         text_of = {(o['k'], o['first']): t for o, t in zip(base['out'], btexts)}
@@ -345,6 +354,11 @@ def run(ctx):
                                'stream': describe(w, dump.stream)})
                 break
     ctx.extra['use_before_definition_requests'] = nubd
+    # spec -> code for the same behaviour: TLC's schedules of Open / Advance / SetCfg (Sessions_MBT, dump set 'names') performed on a
+    # real object over two use-before-definition dumps; Sessions_Val judges every next(), incl. the name a terminate record shows
+    from . import sessions as _sessions
+    _sessions.replay_tlc_schedules(ctx, _random.Random(ctx.seed + 77), 120 if ctx.quick else 3000, '"kev", "tr"', 'names',
+                                   lambda r, world=None: gen_ubd_dump(r, world=world), 'mbtn')
     nv, rej, _ = validate_observations('Pipeline_Val', obs, ctx.workdir, name='c13val', consts=VAL_CONSTS, timeout=3000)
     ctx.traces += nv
     for oid, clause in rej:
